@@ -11,9 +11,16 @@ SCALARS = ['u8', 'u16', 'u32', 'u64', 'i32', 'f32', 'Bool', 'Guid', 'PackedGuid'
 ARRAY_ELEMS = ['u8', 'u16', 'u32', 'u64', 'Guid', 'PackedGuid', 'CString', 'Spell']
 
 
+LOGIN_RANDOM_SCALARS = ['u8', 'u16', 'u32', 'u64', 'i32', 'Bool', 'CString', 'String', 'Population', 'IpAddress']
+LOGIN_RANDOM_ELEMS = ['u8']
+
+
 class Prog:
-    def __init__(s, prefix, rng, avoid=()):
+    def __init__(s, prefix, rng, avoid=(), family='world'):
         s.p, s.rng, s.avoid = prefix, rng, set(avoid)
+        s.family = family
+        s.scalars = SCALARS if family == 'world' else LOGIN_RANDOM_SCALARS
+        s.elems = ARRAY_ELEMS if family == 'world' else LOGIN_RANDOM_ELEMS
         s.helpers = []      # wowm text of helper definers/structs
         s.classes = set()
         s.n = 0
@@ -103,7 +110,13 @@ class Prog:
     # -- members --------------------------------------------------------------------------------
     def scalar(s, indent):
         r = s.rng
-        ty = r.choice(SCALARS)
+        ty = r.choice(s.scalars)
+        if ty == 'IpAddress' and 'enum' in s.branch_kinds:
+            # Ipv4Addr has no Default: a known class when the enclosing if has an else-if / else (emitted as a Rust enum)
+            if 'ipaddress-in-enum-elif-else' in s.avoid:
+                ty = 'u32'
+            else:
+                s.classes.add('ipaddress-in-enum-elif-else')
         n = s.field('v' + ty)
         in_enum_branch = bool(s.branch_kinds) and s.branch_kinds[-1] == 'enum'
         if ty in INTS and r.random() < 0.08 and not (in_enum_branch and 'constant-member-in-enum-branch' in s.avoid):
@@ -126,7 +139,7 @@ class Prog:
             elif kind == 'fixed':
                 s.classes.add('fixed-array-of-struct')
         else:
-            elem = r.choice(ARRAY_ELEMS)
+            elem = r.choice(s.elems)
         n = s.field('arr' + elem)
         if kind == 'fixed' and elem in ('Guid', 'PackedGuid', 'Spell') and s.branch_depth >= 1 and 'fixed-guid-array-in-branch' in s.avoid:
             elem = 'u64'
@@ -165,7 +178,7 @@ class Prog:
                 if seen_conditional and 'endless-array-after-conditional' in s.avoid:
                     allow_endless = False
                 else:
-                    allow_endless = last and top
+                    allow_endless = last and top and s.family == 'world'
                 txt, ended = s.array(indent, depth, allow_endless, seen_conditional)
                 out.append(txt)
             elif x < 0.7 and depth < 2:
@@ -186,7 +199,7 @@ class Prog:
                 out.append(s.scalar(indent))
             if ended:
                 break
-        if top and not ended and r.random() < 0.2 and not (seen_conditional and 'optional-after-conditional' in s.avoid):
+        if top and s.family == 'world' and not ended and r.random() < 0.2 and not (seen_conditional and 'optional-after-conditional' in s.avoid):
             s.classes.add('optional')
             if seen_conditional:
                 s.classes.add('optional-after-conditional')
@@ -282,10 +295,10 @@ class Prog:
         return decl + '\n' + txt
 
 
-def make_program(prefix, seed, avoid=()):
+def make_program(prefix, seed, avoid=(), family='world'):
     """-> dict(body=str, helpers=[(name, text)], classes=set)"""
     rng = random.Random(seed)
-    p = Prog(prefix, rng, avoid)
+    p = Prog(prefix, rng, avoid, family)
     body = p.members(0, top=True)
     return {'body': body, 'helpers': p.helpers, 'classes': sorted(p.classes)}
 
@@ -304,6 +317,13 @@ PROBES = {
     'conditional-inside-optional': lambda p: {
         'body': f'    u8 xbyte;\n    optional optone {{\n        {p}Ena eone;\n        if (eone == A) {{\n            u32 xint;\n        }}\n    }}',
         'helpers': [(f'{p}Ena', f'enum {p}Ena : u8 {{\n    A = 0;\n    B = 1;\n}}')]},
+    'fixed-noncopy-array-in-enum-elif-else': lambda p: {
+        'body': f'    {p}Ena eone;\n    if (eone == A) {{\n        CString[3] arrcstring;\n    }}\n    else if (eone == B) {{\n        u16 xshort;\n    }}\n    else {{\n        u32 xint;\n    }}\n    u8 xbyte;',
+        'helpers': [(f'{p}Ena', f'enum {p}Ena : u8 {{\n    A = 0;\n    B = 1;\n    C = 2;\n}}')]},
+    'ipaddress-in-enum-elif-else': lambda p: {
+        'family': 'login',
+        'body': f'    {p}Ena eone;\n    if (eone == A) {{\n        IpAddress vipaddress;\n    }}\n    else if (eone == B) {{\n        u16 xshort;\n    }}\n    else {{\n        u32 xint;\n    }}\n    u8 xbyte;',
+        'helpers': [(f'{p}Ena', f'enum {p}Ena : u8 {{\n    A = 0;\n    B = 1;\n    C = 2;\n}}')]},
     'field-names-trailing-digits': lambda p: {
         'body': '    u32 item1;\n    f32 item2;', 'helpers': []},
     'flag-ifvar-declared-in-branch': lambda p: {
@@ -371,4 +391,149 @@ def systematic_programs(prefix_of):
             var = p.field('fl' + name)
             return (f'    {name} {var};\n    if ({var} & {ens[0]}) {{\n{fa(p)}\n    }}\n    if ({var} & {ens[1]}) {{\n{fb(p)}\n    }}\n    u8 {p.field("vu")};')
         mk(body, [f'sys:flag-if-if:{na}/{nb}'])
+    return out
+
+
+# ---------------------------------------------------------------------------------------------
+# type x position matrix: every member type the corpus uses in every position class
+
+MATRIX_SCALARS = ['u8', 'u16', 'u32', 'u64', 'i32', 'f32', 'Bool', 'Bool32', 'Guid', 'PackedGuid', 'CString', 'SizedCString',
+                  'DateTime', 'Spell', 'Spell16', 'Item', 'Gold', 'Seconds', 'Milliseconds', 'Level', 'Level16', 'Level32',
+                  'enum', 'upcast-enum', 'flag', 'const', 'struct-fixed', 'struct-var']
+MATRIX_ARRAYS = [(k, e) for e in ('u8', 'u16', 'u32', 'u64', 'Guid', 'PackedGuid', 'CString', 'Spell', 'struct-fixed', 'struct-var')
+                 for k in ('fixed', 'var8', 'var32', 'endless')]
+MATRIX_CONTEXTS = ['top', 'enum-if', 'enum-neq', 'enum-elif-else', 'flag-if', 'struct-in-array', 'struct-member', 'optional']
+LOGIN_SCALARS = ['u8', 'u16', 'u32', 'u64', 'i32', 'Bool', 'CString', 'String', 'Population', 'IpAddress', 'enum', 'upcast-enum', 'flag', 'const', 'struct-fixed', 'struct-var']
+LOGIN_ARRAYS = [(k, e) for e in ('u8', 'struct-fixed', 'struct-var') for k in ('fixed', 'var8', 'var16', 'var32')]
+LOGIN_CONTEXTS = ['top', 'enum-if', 'enum-neq', 'enum-elif-else', 'flag-if', 'struct-in-array']
+
+
+ENUM_CTX = ('enum-if', 'enum-neq', 'enum-elif-else')
+# (position, member type) pairs that fall into a construct class recorded as an open known finding: left out of the matrix
+# while that class is open (each class has its own probe program)
+MATRIX_KNOWN = {**{(c, 'const'): 'constant-member-in-enum-branch' for c in ENUM_CTX},
+                **{(c, f'{e}[fixed]'): 'fixed-guid-array-in-branch' for c in ENUM_CTX for e in ('Guid', 'PackedGuid', 'Spell')},
+                ('enum-elif-else', 'IpAddress'): 'ipaddress-in-enum-elif-else',
+                ('enum-elif-else', 'CString[fixed]'): 'fixed-noncopy-array-in-enum-elif-else',
+                ('enum-elif-else', 'struct-var[fixed]'): 'fixed-noncopy-array-in-enum-elif-else'}
+
+
+def _struct(p, variable):
+    name = f'{p.p}St{p.fresh("")}'
+    saved = p.names
+    p.names = set()
+    body = f'    u16 {p.field("vu")};\n    u8 {p.field("vu")};'
+    if variable:
+        body += f'\n    CString {p.field("vcstring")};'
+    p.names = saved
+    p.helpers.append((name, f'struct {name} {{\n{body}\n}}'))
+    return name
+
+
+def _member(p, ty):
+    """-> wowm lines (4-space indented) declaring one member of matrix type `ty`"""
+    if ty == 'enum':
+        name, base, ens = p.new_enum(signed_ok=False)
+        return f'    {name} {p.field("e" + name)};'
+    if ty == 'upcast-enum':
+        while True:
+            name, base, ens = p.new_enum(signed_ok=False)
+            if base in ('u8', 'u16'):
+                break
+        return f'    (u32){name} {p.field("e" + name)};'
+    if ty == 'flag':
+        name, base, ens = p.new_flag()
+        return f'    {name} {p.field("fl" + name)};'
+    if ty == 'const':
+        return f'    u16 {p.field("vconst")} = 7;'
+    if ty in ('struct-fixed', 'struct-var'):
+        st = _struct(p, ty == 'struct-var')
+        return f'    {st} {p.field("st" + st)};'
+    return f'    {ty} {p.field("v" + ty)};'
+
+
+def _array(p, kind, elem):
+    if elem in ('struct-fixed', 'struct-var'):
+        elem = _struct(p, elem == 'struct-var')
+    n = p.field('arr' + elem)
+    if kind == 'fixed':
+        return f'    {elem}[3] {n};'
+    if kind == 'endless':
+        return f'    {elem}[-] {n};'
+    cty = {'var8': 'u8', 'var16': 'u16', 'var32': 'u32'}[kind]
+    cnt = p.field('amount' + cty + '_of')
+    return f'    {cty} {cnt};\n    {elem}[{cnt}] {n};'
+
+
+def _ind(txt, n=1):
+    return '\n'.join('    ' * n + l for l in txt.split('\n'))
+
+
+def _wrap(p, ctx, members, tail=True):
+    """members: list of member texts (each 4-space indented, maybe several lines) -> message body"""
+    t = f'\n    u8 {p.field("vtail")};' if tail else ''
+    if ctx == 'top':
+        return '\n'.join(members) + t
+    if ctx in ('enum-if', 'enum-neq'):
+        name, base, ens = p.new_enum(signed_ok=False)
+        var = p.field('e' + name)
+        op = '==' if ctx == 'enum-if' else '!='
+        return f'    {name} {var};\n    if ({var} {op} {ens[0]}) {{\n{_ind(chr(10).join(members))}\n    }}{t}'
+    if ctx == 'enum-elif-else':
+        while True:
+            name, base, ens = p.new_enum(signed_ok=False)
+            if len(ens) >= 3:
+                break
+        var = p.field('e' + name)
+        a = members[0::3] or [f'    u8 {p.field("vu")};']
+        b = members[1::3] or [f'    u16 {p.field("vu")};']
+        c = members[2::3] or [f'    u32 {p.field("vu")};']
+        return (f'    {name} {var};\n    if ({var} == {ens[0]}) {{\n{_ind(chr(10).join(a))}\n    }}\n    else if ({var} == {ens[1]}) {{\n{_ind(chr(10).join(b))}\n    }}\n'
+                f'    else {{\n{_ind(chr(10).join(c))}\n    }}{t}')
+    if ctx == 'flag-if':
+        name, base, ens = p.new_flag()
+        var = p.field('fl' + name)
+        return f'    {name} {var};\n    if ({var} & {ens[0]}) {{\n{_ind(chr(10).join(members))}\n    }}{t}'
+    if ctx in ('struct-in-array', 'struct-member'):
+        name = f'{p.p}St{p.fresh("")}'
+        p.helpers.append((name, f'struct {name} {{\n' + '\n'.join(members) + '\n}'))
+        if ctx == 'struct-member':
+            return f'    {name} {p.field("st" + name)};{t}'
+        cnt = p.field('amountu_of')
+        return f'    u8 {cnt};\n    {name}[{cnt}] {p.field("arr" + name)};{t}'
+    if ctx == 'optional':
+        return f'    u32 {p.field("vu")};\n    optional {p.field("opt")} {{\n{_ind(chr(10).join(members))}\n    }}'
+    raise ValueError(ctx)
+
+
+def matrix_programs(prefix_of, family='world', chunk=4, avoid=()):
+    """One program per (position class, chunk of member types): every type x position pair of the corpus' feature subset.
+    A pair that is an open known class is left out (`skip(ctx, ty)`)."""
+    scal, arrs, ctxs = (MATRIX_SCALARS, MATRIX_ARRAYS, MATRIX_CONTEXTS) if family == 'world' else (LOGIN_SCALARS, LOGIN_ARRAYS, LOGIN_CONTEXTS)
+    out = []
+    i = 0
+
+    def mk(ctx, items, label):
+        nonlocal i
+        items = [it for it in items if MATRIX_KNOWN.get((ctx, it if isinstance(it, str) else f'{it[1]}[{it[0]}]')) not in avoid or not avoid]
+        if not items:
+            return
+        p = Prog(prefix_of(i), random.Random(f'mx{family}{i}'), family=family)
+        members = []
+        for it in items:
+            members.append(_member(p, it) if isinstance(it, str) else _array(p, *it))
+        endless = any(not isinstance(it, str) and it[0] == 'endless' for it in items)
+        body = _wrap(p, ctx, members, tail=not endless)
+        names = [it if isinstance(it, str) else f'{it[1]}[{it[0]}]' for it in items]
+        out.append({'body': body, 'helpers': p.helpers, 'classes': [f'mx:{ctx}:{n}' for n in names], 'systematic': True, 'matrix': (ctx, names)})
+        i += 1
+    for ctx in ctxs:
+        for k in range(0, len(scal), chunk):
+            mk(ctx, scal[k:k + chunk], 'scalars')
+        normal = [a for a in arrs if a[0] != 'endless']
+        for k in range(0, len(normal), chunk):
+            mk(ctx, normal[k:k + chunk], 'arrays')
+    for a in arrs:
+        if a[0] == 'endless':
+            mk('top', ['u8', a], 'endless')
     return out
